@@ -193,7 +193,14 @@ class Concretiser:
         if dx == "unterminated":
             return "{{" + self.ch([" ", ""]) + s + self.ch([" ", "", " }"])
         if dx == "garbage":
-            s = s + self.rnd.choice([" zz", " )", " ]", " 1", " 'x'", " ? "])
+            Concretiser.garbage_no += 1
+            g = [" zz", " )", " ]", " 1", " 'x'", " ? "][Concretiser.garbage_no % 6]       # (every kind in turn)
+            if e["k"] == "obj" and s.rstrip().endswith("}"):
+                # inside the object, after its last field (`{k: a zz}`), or in the form without braces (`{{ k: a zz }}`)
+                body = s.rstrip()[:-1]
+                s = (body + g + "}") if Concretiser.garbage_no % 2 else (body.lstrip()[1:] + g)
+            else:
+                s = s + g
         pad = self.ch([" ", "", "  ", "\n"])
         if s.startswith("{") or s.endswith("}"):
             pad = pad or " "
@@ -388,6 +395,7 @@ class Concretiser:
         return s
 
     pending_dir = None
+    garbage_no = 0
 
     def take_dir(self):
         d = self.pending_dir or []
